@@ -23,6 +23,9 @@ class CallMixin:
             s = self.summary_for(f)
             if s is not None:
                 return s(f, args, kwargs, node, fr)
+            if self.mode == "unparse" and f.fi is not None and any(isinstance(a, (StrOp, Str)) for a in args):
+                # text handed from one string routine to another (C04-R2: escaping escaped text)
+                self.text_calls.append((f.fi.fq, list(args), self.cur_site))
             return self.invoke(f, args, kwargs, node)
         if isinstance(f, RepoCls):
             return self.instantiate(f.ci, args, kwargs, node)
